@@ -9,6 +9,34 @@ def _has(tag):
     return lambda s, r, tags: tag in tags
 
 
+CORE_READER = [("BS.Props.C01", "BS.Props.C01.buffer_size_irrelevant"), ("BS.Props.C01", "BS.Props.C01.carry_fits")]
+
+THEOREMS = {
+    "C01": (["BS.Props.C01"], [("BS.Props.C01", "BS.Props.C01.full_read_roundtrip"),
+                                ("BS.Props.C01", "BS.Props.C01.buffer_size_irrelevant"),
+                                ("BS.Props.C01", "BS.Props.C01.carry_fits")]),
+    "C07": (["BS.Props.C07"], [("BS.Props.C07", "BS.Props.C07.reference_decoder_reads_canonical"),
+                                ("BS.Props.C07", "BS.Props.C07.section_layout_is_documented"),
+                                ("BS.Props.C07", "BS.Props.C07.section_roundtrip"),
+                                ("BS.Props.C07", "BS.Props.C07.reader_reads_canonical")]),
+    "C10": (["BS.Props.C10"], [("BS.Props.C10", "BS.Props.C10.sampler_is_bucket_means"),
+                                ("BS.Props.C10", "BS.Props.C10.resampling_read_of_region"),
+                                ("BS.Props.C10", "BS.Props.C10.bucketMeans_length"),
+                                ("BS.Props.C10", "BS.Props.C10.at_most_2n")]),
+    "C11": (["BS.Props.C11", "BS.Props.C10"], [("BS.Props.C11", "BS.Props.C11.estimate_total"),
+                                ("BS.Props.C11", "BS.Props.C11.unreachable_arm"),
+                                ("BS.Props.C10", "BS.Props.C10.sampler_is_bucket_means"),
+                                ("BS.Props.C10", "BS.Props.C10.at_most_2n")]),
+    "C13": (["BS.Props.C13"], [("BS.Props.C13", "BS.Props.C13.first_n_is_prefix"),
+                                ("BS.Props.C13", "BS.Props.C13.processor_takes_prefix")]),
+    "C16": (["BS.Props.C16"], [("BS.Props.C16", "BS.Props.C16.pushData_appends"),
+                                ("BS.Props.C16", "BS.Props.C16.pushData_error_no_state"),
+                                ("BS.Props.C16", "BS.Props.C16.cacheProcess_appends")]),
+    "C18": (["BS.Props.C18"], [("BS.Props.C18", "BS.Props.C18.no_consent_is_error"),
+                                ("BS.Props.C18", "BS.Props.C18.skipping_drops"),
+                                ("BS.Props.C18", "BS.Props.C18.consent_resumes_at_next_section")]),
+}
+
 PROPS = {
     "C01": {
         "proj": {"ops": {"read_all"}},
@@ -94,3 +122,8 @@ PROPS = {
         "timeout": 60,
     },
 }
+
+for _pid, _cfg in PROPS.items():
+    mods, thms = THEOREMS.get(_pid, (["BS.Props.C01"], CORE_READER))
+    _cfg["lean_modules"] = mods
+    _cfg["theorems"] = thms
